@@ -66,6 +66,12 @@ def templates(tier, seed):
                 tds.append(dict(fam="corner", s=s, e=e, off=off))
     for s, e in (("@tl", "@b"), ("plain", "@c"), ("pt", "plain"), ("@r", "pt")):
         tds.append(dict(fam="corner", s=s, e=e, off="none"))
+    # connector attributes that have no effect for the connector kind are connector attributes all the same (never in the output)
+    stray = []
+    for i, t in enumerate(tds):
+        if t["fam"] in ("straight", "hv") and (t["fam"] == "hv" or i % 9 == 0):
+            for st in ("corner-offset-abs", "corner-offset-pct"):
+                stray.append(dict(t, stray=st))
     # the same connectors written before / between the elements they connect (the connector has to wait for its ends), and
     # with the second box placed relative to the first
     ordered = []
@@ -76,7 +82,9 @@ def templates(tier, seed):
     if tier == "quick":
         tds = sample_quota(tds, lambda t: (t["fam"],), {"straight": 120, "hv": 4, "corner": 260}, seed)
         ordered = sample_quota(ordered, lambda t: (t["fam"], t["order"]), {"straight": 12, "hv": 2, "corner": 16}, seed)
-    return tds + ordered
+    if tier == "quick":
+        stray = sample_quota(stray, lambda t: (t["fam"], t["stray"]), {"straight": 10, "hv": 4}, seed)
+    return tds + ordered + stray
 
 
 def twins(tier, seed):
@@ -152,6 +160,8 @@ def build(td, wrong=False):
         else:
             extra = f' corner-offset="{td["off"]}"'
             offinfo = ("pct", Fraction(int(td["off"][:-1]), 100))
+    if td.get("stray"):
+        extra += ' corner-offset="3"' if td["stray"] == "corner-offset-abs" else ' corner-offset="25%"'
     tag = "polyline" if fam == "corner" else "line"
     kel = f'<{tag} id="k" start="{stxt}" end="{etxt}"{extra}/>'
     order = td.get("order", "abk")
@@ -275,5 +285,5 @@ def build(td, wrong=False):
                 jog = minus(outer, ov) if sd in ("l", "t") else plus(outer, ov)
                 obls.append(Obl("u-jog-beyond-outermost-end", or_(ne(pts[1][ax], jog), ne(pts[2][ax], jog))))
         return obls
-    name = f"{fam}/{td.get('s')}/{td.get('e')}/{td.get('et', '')}{td.get('off', '')}/{td.get('ka', '')}" + (f"/{td['order']}" if td.get("order") else "")
+    name = f"{fam}/{td.get('s')}/{td.get('e')}/{td.get('et', '')}{td.get('off', '')}/{td.get('ka', '')}" + (f"/{td['order']}" if td.get("order") else "") + (f"/{td['stray']}" if td.get("stray") else "")
     return Template(name, doc, vars_, check, family=fam, role=f"C13/{fam}", cap=40, seeds=seeds(vars_), explore=not needs_search)
